@@ -45,8 +45,17 @@ func (p *ruleSetProcessor) isVersionSupported(version string) bool {
 
 func (p *ruleSetProcessor) loadRules(ruleSet *config.RuleSet) ([]rule.Rule, error) {
 	rules := make([]rule.Rule, len(ruleSet.Rules))
+	ids := make(map[string]struct{}, len(ruleSet.Rules))
 
 	for idx, rc := range ruleSet.Rules {
+		// rules are told apart by id and source (SameAs), so an id must not occur twice in a rule set
+		if _, seen := ids[rc.ID]; seen {
+			return nil, errorchain.NewWithMessagef(heimdall.ErrConfiguration,
+				"rule ID='%s' is defined more than once in the rule set", rc.ID)
+		}
+
+		ids[rc.ID] = struct{}{}
+
 		rul, err := p.f.CreateRule(ruleSet.Version, ruleSet.Source, rc)
 		if err != nil {
 			return nil, errorchain.NewWithMessagef(heimdall.ErrInternal,
